@@ -3,6 +3,16 @@ NOTES = ("Contract-based deductive verification with CBMC code contracts on the 
          "exit 0 = all obligations discharged, exit 1 = VIOLATION, exit 2 = undecided (tool limit / time-out / broken anchor).")
 NOT_CLAIMED = {}
 CLAIMS = {
+ "C19": dict(
+  text="Stock comparators: contracts enforced over their whole key domain (int: all 2^64 pairs, pointers: all positions in one object; "
+       "names: strings up to 8 bytes).  Tree operations: the inductive step 'well-formed set + one real operation => well-formed set "
+       "whose abstract content, size, lower bound, iteration order and cleanup counts are those of the mathematical sorted map' is "
+       "proved from EVERY well-formed tree (all BST shapes, symbolic keys) of up to N elements - N=4 quick, N=5 thorough.  Bounded in N, "
+       "hence model_checking, not proof.",
+  design_ref="§5 C19",
+  note="bounded stand-in: tree size N (in job ids); CBMC has no inductive heap predicates, so the unbounded shape argument is not attempted. "
+       "Pointer comparators: keys inside one object (where C defines the relation); flat address model assumed across objects.",
+  technique="CBMC contracts on comparators (DFCC) + bounded inductive-step harness over all well-formed trees on the real set.c"),
  "C13": dict(
   text="irc_check_mask is proved equal to the 'leading bits equal' specification for every (address, mask, length) "
        "triple by enforcing its contract with DFCC (loops bounded by the 8 groups, unwinding assertions on).",
